@@ -12,8 +12,11 @@ def run(chk, replay=None):
     chk.rule = ("grammar lines whose user field names are planted identifiers (lengths 1..20, dotted, substrings of each other / of IXSCAN, hex-looking), plan summaries (IXSCAN single / "
                 "compound / multiple clauses, COLLSCAN, IDHACK), configured namespace prefix vs line namespace (equal, prefix, different); non-trivial = distinct (prefix relation, line) pairs")
     cases = []
+    # user fields named like a bare word of the tables that the walkers consult for every key (today: if / then / else): a field of that name is a user field all the same
+    bare = [b for b in v.get('bare_top', []) if len(b) >= 3]
     for i in range(1200 if th else 300):
         fs = rng.sample(FIELDS, rng.randint(2, 5))
+        if bare and i % 4 == 0: fs = fs[:3] + [bare[(i // 4) % len(bare)]]
         k = rng.randint(1, 3)
         names = [(lambda f: f if rng.random() < 0.3 else f.split('.')[0])(rng.choice(fs)) for _ in range(k)]
         plan = rng.choice(['COLLSCAN', 'IDHACK', 'IXSCAN { %s }' % ', '.join('%s: 1' % n for n in names),
@@ -83,6 +86,7 @@ def run(chk, replay=None):
                             where.add('dollarref' if x.startswith('$') else 'plainvalue')
                     w(tout)
                     tags += sorted(where)
+                    if name in bare: tags += ['bareword', 'bareword_if_then_else' if name in ('if', 'then', 'else') else 'bareword_' + name]
                     chk.violate('a user field name remains in the line', dict(case, name=name, output=text[:1500]), tags=tags)
             # sibling count and order
             tino = jtree.parse(fo) if isinstance(fo, bytes) else None
